@@ -170,6 +170,10 @@ func (c *typedConstraint[E]) ProcessPostCommit(state *boltz.EntityChangeState[E]
 		ent = state.InitialState
 	}
 	c.rec.Add(Event{Store: c.store, Style: "typed-constraint", Type: typ, ID: state.EntityId, Info: entInfo(ent)})
+	if typ == "updated" {
+		// constraints compare the state before with the state after: the initial state is reported separately
+		c.rec.Add(Event{Store: c.store, Style: "typed-constraint-initial", Type: typ, ID: state.EntityId, Info: entInfo(state.InitialState)})
+	}
 }
 
 type ifaceListener[E boltz.Entity] struct {
